@@ -1,5 +1,6 @@
 import LentilVerif.Model.Basic
 import LentilVerif.Gen.RescaleGrid
+import LentilVerif.Gen.PlaneRescale
 /-! Executable model of the sampling bookkeeping of `Plane.rescale`, `Plane.resample` and `util.rescale` (C17), generic in
 the value type; the interpolator (`scipy.ndimage.map_coordinates`) is a parameter with a stated contract. Mathlib-free. -/
 namespace Lentil.Resc
@@ -26,14 +27,16 @@ def gridCol [Add K] [Sub K] [Mul K] [Div K] (ofInt : Int → K) (two : K) (S0 S1
 def pixelscale [Div K] (px s : K) : K := px / s
 
 /-- `Plane.resample(new)`: `rescale(scale = pixelscale[0] / new)` -/
-def resampleScale [Div K] (px new : K) : K := px / new
+def resampleScale [Add K] [Sub K] [Mul K] [Div K] (px new : K) : K := Gen.prResampleScale px px new     -- regenerated: `self.pixelscale[0]/pixelscale`
 
 /-- `Plane.rescale`'s own bookkeeping (everything except the interpolation):
 * `plane._pixelscale = (px[0]/scale, px[1]/scale)` when a pixel scale is set, else left `None`;
 * the amplitude is interpolated **and divided by `scale`** only when it is an array (`amplitude.ndim > 1`), the OPD is
   interpolated only when it is an array; scalars pass through unchanged. -/
-def planePixelscale [Div K] (px : Option (K × K)) (s : K) : Option (K × K) := px.map fun p => (p.1 / s, p.2 / s)
-def amplitudeFactor [One K] [Div K] (ampNdim : Nat) (s : K) : K := if ampNdim > 1 then 1 / s else 1
+def planePixelscale [Add K] [Sub K] [Mul K] [Div K] (px : Option (K × K)) (s : K) : Option (K × K) :=
+  px.map fun p => Gen.prPixelscale p.1 p.2 s        -- regenerated tuple update of Plane.rescale
+def amplitudeFactor [One K] [Add K] [Sub K] [Mul K] [Div K] (ampNdim : Nat) (s : K) : K :=
+  if ampNdim > 1 then Gen.prAmplitudeFactor 1 s else 1     -- regenerated post-factor behind the `ndim > 1` guard
 def interpolated (ndim : Nat) : Bool := decide (ndim > 1)
 
 /-- outcome of `Plane.resample(new)`: refuses a plane without pixel scale (`ValueError`) and a non-uniformly sampled one
@@ -42,7 +45,7 @@ inductive Resample (K : Type) where
   | valueError | notImplemented | scale (s : K)
 deriving Repr
 
-def resample [Div K] [DecidableEq K] (px : Option (K × K)) (new : K) : Resample K :=
+def resample [Add K] [Sub K] [Mul K] [Div K] [DecidableEq K] (px : Option (K × K)) (new : K) : Resample K :=
   match px with
   | none => .valueError
   | some p => if p.1 = p.2 then .scale (resampleScale p.1 new) else .notImplemented
